@@ -157,6 +157,26 @@ impl Sim {
         r
     }
 
+    /// Wait until the aggregator's background artifact tasks are done (they hold the signed entity
+    /// type lock while they run): decisions of the harness must not depend on how fast this
+    /// machine archives files. Logical wait with a generous wall-clock cap; `false` = still busy.
+    pub async fn wait_for_background_tasks(&mut self, cap: std::time::Duration) -> bool {
+        let Ok(lock) = self.builder.get_signed_entity_type_lock().await else { return true };
+        let t0 = std::time::Instant::now();
+        loop {
+            for _ in 0..20 {
+                tokio::task::yield_now().await;
+            }
+            if !lock.has_locked_entities().await {
+                return true;
+            }
+            if t0.elapsed() > cap {
+                return false;
+            }
+            tokio::time::sleep(std::time::Duration::from_millis(5)).await;
+        }
+    }
+
     pub fn state(&self) -> &'static str {
         self.runtime.state_label()
     }
